@@ -17,7 +17,11 @@ func init() {
 		if seed == 0 {
 			seed = 1
 		}
-		bt := gen.Build(gen.Spec{Seed: seed, Index: i, Hostile: i%3 != 0, Tests: i%2 == 0, Excluded: i%4 == 1, Impl: i%5 == 0, PerPair: 12})
+		spec := gen.Spec{Seed: seed, Index: i, Hostile: i%3 != 0, Tests: i%2 == 0, Excluded: i%4 == 1, Impl: i%5 == 0, PerPair: 12}
+		if os.Getenv("VERIF_TWIN") != "" {
+			spec = gen.Spec{Seed: seed + 6000, Index: i, Hostile: i%2 == 0, Impl: i%3 == 0, PerPair: 6, Twin: true, Transit: true, Unrelated: true}
+		}
+		bt := gen.Build(spec)
 		files := gen.Render(bt.P, gen.RenderOpts{})
 		os.RemoveAll(args[1])
 		ggrun.WriteTree(args[1], files)
